@@ -1169,6 +1169,16 @@ func InvalidationMatchesByContainment(p *core.Program, r *core.Report, rule stri
 				if bad == "" && !contains {
 					bad = "the removal is not guarded by strings.Contains(<cache key>, <owner key>)"
 				}
+				if bad != "" {
+					// the one narrower predicate that can be checked against the layout of the key: the key split at the
+					// separator and the owner-key-sized field groups compared with the owner key as a whole
+					if why, ok := splitFormMatchesLayout(p, m, rs, rc); ok {
+						r.OK(rule, m.Key()+": cached results of an owner are found by containment of the owner key", p.Pos(rc.Pos()), why)
+						return true
+					} else if why != "" {
+						bad += "; as a split-and-compare it does not agree with the layout of the key: " + why
+					}
+				}
 				r.Check(bad == "", rule, m.Key()+": cached results of an owner are found by containment of the owner key", p.Pos(rc.Pos()), "strings.Contains(cacheKey, ownerKey)",
 					bad+": a predicate narrower than containment has to agree with the layout of the key (owner keys and the connection part contain the separator themselves); a result that survives the deletion of its workload is served to the next workload of that name")
 				return true
